@@ -217,6 +217,10 @@ def recipe_functions(ctx):
                 return core.call_impl(rc.call, xs, **kw)
             desc = {"fn": rc.name, "inputs": [gens.da_repr(x) for x in xs], "weights": gens.da_repr(w)}
             ctx.count("recipe:" + rc.name)
+            if w is not None and not rc.fwd_weights and call(None, None)[0] == "err" and call(None, "all")[0] == "err":
+                # the function does not accept a weights-only dimension at all (it raises for every request): out of scope
+                ctx.count("weights_only_dim_unsupported:" + rc.name)
+                continue
             ok, why = scorelib.same_result(call(None, None), call("all", None))
             ctx.case((rc.name, "none=all", desc))
             if not ok:
